@@ -99,18 +99,31 @@ def check_match(case):
     # C01: every interval, and the total
     tot = 0.0
     targets = [float(t) for t in targets]
+    # absolute integral of the reference over each matched reference span: the scale at which the target itself is known
+    # (a target may be a cancelling sum of much larger terms)
+    ref_abs = [math.fsum(abs(v) for v in RM.rule_integrals(xr, [abs(v) for v in yr], case["rr"])[ra:rb]) for ra, rb in zip(ridx[:-1], ridx[1:])]
+    reported = False
     for i, ((a, b), t) in enumerate(zip(zip(fidx[:-1], fidx[1:]), targets)):
         got = _span(x, zf, case["tr"], a, b)
         tot += got
+        if reported:
+            continue
         # each interval is judged at ITS OWN scale (its target, the absolute integral of what was there before and
         # after), so that a small interval next to a huge one is still matched to rounding
         loc = max(abs(t), math.fsum(abs(y[j]) * (x[j + 1] - x[j]) for j in range(a, b)),
-                  math.fsum(abs(zf[j]) * (x[j + 1] - x[j]) for j in range(a, b)), 1e-300,
+                  math.fsum(abs(zf[j]) * (x[j + 1] - x[j]) for j in range(a, b)), 1e-300, float(ref_abs[i]),
                   case.get("local_floor", 0.0) * scale)
+        if case.get("inexact_grid"):
+            # on grids that are not exactly representable the weight at a shared fixed point is +-1 ulp instead of 0, so
+            # a neighbouring interval's stretch leaks ~1e-16 of ITS scale into this one
+            nb = [j for j in (i - 1, i + 1) if 0 <= j < len(targets)]
+            for j in nb:
+                a2, b2 = fidx[j], fidx[j + 1]
+                loc = max(loc, 1e-6 * max(abs(targets[j]), float(ref_abs[j]), math.fsum(abs(zf[q]) * (x[q + 1] - x[q]) for q in range(a2, b2))))
         if abs(float(got - t)) > 1e-9 * loc:
             fails.append(fail("C01:interval-integral", {"interval": i, "samples": [a, b], "expected": float(t),
                                                         "observed": float(got), "fixed": fidx, "ref_idx": ridx}, key))
-            break
+            reported = True
     if abs(tot - math.fsum(targets)) > tol * len(targets):
         fails.append(fail("C01:total-integral", {"expected": math.fsum(targets), "observed": tot}, key))
     # C03 (i): outside untouched (bytes), fixed points
@@ -232,7 +245,7 @@ def make_selection_body(grids, L, rmax, images, alphas, prefix):
                     yr = [((3 * i + n_ok) % 5) - 1 for i in range(r)]
                     _judge(ctx, prefix=prefix, case={"x": x, "y": list(yv), "xr": xr, "yr": yr, "mode": m, "strategy": strat,
                                  "fixed": fixed, "tr": tr, "rr": rr, "alpha": al,
-                                 "fixed_as_list": bool(n_ok % 2),
+                                 "fixed_as_list": bool(n_ok % 2), "inexact_grid": iname == "0.1x+0.3",
                                  "y_dtype": ("float64", "int64", "int-list")[(n_ok // 3) % 3]})
         ctx.note("raw_cases", n_raw)
         ctx.note("admissible_cases", n_ok)
